@@ -152,8 +152,9 @@ def close(a, b, rtol, atol):
 
 
 # ------------------------------------------------------------------ the two oracles
-def check_gcp(x, g, lb, ub, mats, it=1):
-    """Run the real get_cauchy_point and compare with the dense reference."""
+def check_gcp(x, g, lb, ub, mats, it=1, unit=1.0):
+    """Run the real get_cauchy_point and compare with the dense reference.  unit = the
+    magnitude of the variables (absolute tolerances are multiples of it)."""
     from lbfgsb.cauchy import get_cauchy_point
     out = []
     pairs = refs.pairs_of_mats(mats)
@@ -175,7 +176,7 @@ def check_gcp(x, g, lb, ub, mats, it=1):
     gmax = float(np.max(np.abs(g_in)))
     with np.errstate(divide="ignore", invalid="ignore"):
         amp = np.where(g_in != 0, (gmax / np.abs(g_in)) ** 2, 0.0)
-    tolv = 1e-9 * (1 + np.maximum(np.abs(xc), np.abs(xr))) + \
+    tolv = 1e-9 * (unit + np.maximum(np.abs(xc), np.abs(xr))) + \
         100 * np.finfo(float).eps * amp * np.abs(xr - x_in)
     if not bool(np.all(np.abs(xc - xr) <= tolv)):
         # Backward-error acceptance (met on intercepted inputs only: gradient components
@@ -187,24 +188,24 @@ def check_gcp(x, g, lb, ub, mats, it=1):
         # rounding.  Anything else is wrong.
         gz = np.where(np.abs(g_in) <= 1e-10 * np.max(np.abs(g_in)), 0.0, g_in)
         xr2 = refs.ref_gcp(x_in, gz, lb, ub, B)[0] if not np.array_equal(gz, g_in) else None
-        if xr2 is not None and close(xc, xr2, 1e-9, 1e-9):
+        if xr2 is not None and close(xc, xr2, 1e-9, 1e-9 * unit):
             flat = True
         else:
             out.append(("gcp_wrong", dict(xc=xc, ref=xr, t=t, tend=tend)))
     else:
         # pinned exactly on the bound reached
         for i in range(x.size):
-            if np.isfinite(t[i]) and t[i] < tend * (1 - 1e-9) - 1e-12:
+            if np.isfinite(t[i]) and t[i] < tend * (1 - 1e-9) - 1e-12 * unit:
                 bnd = ub[i] if g_in[i] < 0 else lb[i]
                 if xc[i] != bnd:
                     out.append(("gcp_not_pinned", dict(i=i, xc=xc, bound=bnd)))
                     break
-    scale = 1.0 + abs(refs.model(xr, x_in, g_in, B))
+    scale = unit * unit + abs(refs.model(xr, x_in, g_in, B))
     if refs.model(xc, x_in, g_in, B) > 1e-12 * scale:
         out.append(("gcp_model_increase", dict(m=refs.model(xc, x_in, g_in, B))))
     if pairs and np.any((xc != lb) & (xc != ub)) and not any(o[0] == "gcp_wrong" for o in out):
         cref = mats.W.T @ (xc - x_in)
-        if np.shape(c) != cref.shape or not close(np.asarray(c), cref, 1e-8, 1e-9):
+        if np.shape(c) != cref.shape or not close(np.asarray(c), cref, 1e-8, 1e-9 * unit):
             out.append(("c_wrong", dict(c=c, ref=cref, xc=xc)))
     return out, (xc if flat else xr), B
 
